@@ -1,9 +1,9 @@
 #!/bin/bash
-# usage: lib/confirm_seed_sdp.sh <id> <k>   -- confirms a seeded change whose demo needs the sdp feature
+# usage: lib/confirm_seed_sdp.sh <id> <k> [<worktree> <outdir> <name>]  -- confirms a seeded change whose demo needs the sdp feature
 # (worktree /tmp/seed/<id> with its sdpdemo project): suite green with patch (default features),
 # demo (sdp build) fails with patch and passes without.
 set -u
-id=$1; k=$2; out=/tmp/seed/$id.out; WT=/tmp/seed/$id; name=$id-$k
+id=$1; k=$2; WT=${3:-/tmp/seed/$id}; out=${4:-/tmp/seed/$id.out}; name=${5:-$id-$k}
 dest=/verif/seeded/$name; mkdir -p $dest
 cp $out/patch$k.diff $dest/patch.diff; cp $out/demo$k.rs $dest/demo.rs; cp $out/notes$k.md $dest/notes.md 2>/dev/null
 cd $WT && git checkout -q -- . && git clean -fdq -- tests src
